@@ -71,7 +71,7 @@ def margin_units(nrep, nnon, nunexp=0, states=("AA",), counties=2, cls=True, dis
     for i in range(nunexp):
         u = P.U("%sc%d_x%d" % (st, 1 + i % counties, i), "unexp", state=st)
         if not symbolic_unexpected:
-            u["res"] = dict(turnout=57 + 10 * i, dem=30 + 3 * i, gop=20 + 5 * i)
+            u["res"] = dict(turnout=520 + 10 * i, dem=400 + 3 * i, gop=50 + 5 * i)  # a clearly non-zero margin
             u["pev"] = 100
         us.append(u)
     for j, u in enumerate(us):
